@@ -1288,6 +1288,76 @@ def check_reserve_and_default(ck, prog, prog_xz):
           "is exceeded and then runs all threads anyway", key="TERMS:xz:mtenc-limit-default")
 
 
+def check_outq_loops(ck, prog, rule="C09-OUTQLOOP"):
+    """The output queue keeps its memory within bufs_limit by loops of the form `while (COND) helper(outq, ...)` (free cached
+    buffers until the new limit holds, move every buffer to the cache, ...).  Such a loop enforces COND's negation only if
+    COND reads something the helper changes: a condition over members the helper never writes is either false from the
+    start (nothing is trimmed: more buffers stay allocated than the new limit allows) or never becomes false."""
+    ck.rule(rule, "outqueue.c: the condition of every `while (...) helper(outq)` loop reads a lzma_outq member that the helper modifies")
+    written = {}
+
+    def writes_of(nm, depth=0):
+        if nm in written:
+            return written[nm]
+        written[nm] = set()
+        fs = [g for g in prog.functions.get(nm, []) if g.blocks and g.file.endswith("outqueue.c")]
+        out = set()
+        for g in fs:
+            for b, i, e in g.iter_elems():
+                for (l, r, op, node) in ex.writes(e):
+                    ls = ex.strip(l)
+                    if ls is not None and ls.get("k") == "mem" and ls.get("rec") == "lzma_outq":
+                        out.add(ls["f"])
+                if depth < 3:
+                    for c in ex.calls(e, into_refs=False):
+                        if c.get("fn") and c.get("fn") != nm:
+                            out |= writes_of(c["fn"], depth + 1)
+        written[nm] = out
+        return out
+    n = 0
+    for nm, fs in sorted(prog.functions.items()):
+        for f in fs:
+            if not f.blocks or not f.file.endswith("outqueue.c"):
+                continue
+            for b in f.blocks.values():
+                if not (b.term and b.term.get("kind") in ("WhileStmt", "ForStmt", "DoStmt") and "cond" in b.term and len(b.succs) == 2):
+                    continue
+                # loop body: blocks reachable from the true successor without passing the condition block again
+                body, st = set(), [b.succs[0]]
+                while st:
+                    x = st.pop()
+                    if x is None or x in body or x == b.id:
+                        continue
+                    body.add(x)
+                    st.extend(f.blocks[x].succs)
+                if b.id not in {y for x in body for y in f.blocks[x].succs}:
+                    continue
+                helpers = sorted({c.get("fn") for x in body for e in f.blocks[x].elems if e is not None
+                                  for c in ex.calls(e, into_refs=False)
+                                  if c.get("fn") and c["args"] and ex.show(c["args"][0]) == "outq"})
+                if not helpers:
+                    continue
+                ck.saw_function(f)
+                n += 1
+                reads = {x["f"] for x in ex.walk(b.term["cond"]) if x.get("k") == "mem" and x.get("rec") == "lzma_outq"}
+                mod = set()
+                for h in helpers:
+                    mod |= writes_of(h)
+                direct = {ex.strip(l)["f"] for x in body for e in f.blocks[x].elems if e is not None
+                          for (l, r, op, node) in ex.writes(e)
+                          if ex.strip(l) is not None and ex.strip(l).get("k") == "mem" and ex.strip(l).get("rec") == "lzma_outq"}
+                ok = bool(reads & (mod | direct))
+                ck.ob(rule, "%s@%s" % (f.name, ex.show(b.term["cond"])), ok, common.where(f, b.term["cond"]),
+                      "%s: `while (%s)` reads %s, which %s modifies" % (f.name, ex.show(b.term["cond"]), sorted(reads & (mod | direct)), "/".join(helpers))
+                      if ok else
+                      "%s(): the loop `while (%s) %s(outq, ...)` tests %s, but %s() only modifies %s: the loop cannot establish its exit "
+                      "condition (with an empty queue it never runs, so cached buffers beyond the new limit stay allocated and the "
+                      "coder holds more memory than it reports and than the limit it was given allows)" % (
+                          f.name, ex.show(b.term["cond"]), "/".join(helpers), sorted(reads) or "no queue member", "/".join(helpers), sorted(mod)),
+                      key="OUTQLOOP:%s:%s" % (f.name, "/".join(helpers)))
+    ck.floor(rule, 5)
+
+
 def run(ck):
     ck.explanation = (
         "Must-pass (edge cut) rules on the resume-aware product graphs of the container decoders: every "
@@ -1312,6 +1382,7 @@ def run(ck):
     check_free_first(ck, prog)
     check_pending(ck, prog)
     check_kept(ck, prog)
+    check_outq_loops(ck, prog)
     # what the memory usage functions describe is what a RE-USED coder holds as well: a cached buffer whose size key differs
     # from the new size is replaced, not kept (rule shared with C10)
     from . import C10
